@@ -23,7 +23,7 @@ def mc_scenario(rep, tmp, name, maxlen=2, workers=8):
     return [s["o"] for s in r["states"]], r["acts"], mc
 
 
-def collect(rep, names, tier, *, act_filter=None, max_pairs=None, seed=0, fault_pairs=0, fault_stride=1):
+def collect(rep, names, tier, *, act_filter=None, max_pairs=None, seed=0, fault_pairs=0, fault_stride=1, histories=(0, 0)):
     """Returns (events, judge result).  act_filter(act) -> bool restricts the action alphabet; max_pairs thins the
     (state, action) table deterministically per scenario when it is larger."""
     tmp = tla.scratch("sc-")
@@ -59,6 +59,21 @@ def collect(rep, names, tier, *, act_filter=None, max_pairs=None, seed=0, fault_
         frozen = {n for n in names if any(c["frozen"] or c["dnc"] for c in S.SCENARIOS[n]["classes"].values())}
         pipeline.canaries(rep, "J_SpecClass", result["samples"], canary.specclass_for(frozen), env=env, want=16)
         rep.mark("canaries")
+        if histories[0]:
+            hjobs = []
+            for name, (states, acts) in fault_src.items():
+                if not acts or not states:          # (a scenario without any action of the kind this check drives)
+                    continue
+                for wk in range(histories[0]):
+                    hjobs.append((name, states, acts, f"{seed}-{wk}", 12, histories[1]))
+            hr = pipeline.run_judged(_history, hjobs, "J_SpecClass", replay_fn=_replay, key_fn=_hkey, nontrivial_fn=_nontrivial, env=env, chunk=12000)
+            rep.coverage["history_steps"] = hr["n"]
+            rep.coverage["history_shape"] = {"per_scenario": histories[0] * 12, "steps_each": histories[1]}
+            for k in ("n", "distinct", "bad"):
+                result[k] += hr[k]
+            for k, v in hr["ante"].items():
+                result["ante"][k] = result["ante"].get(k, 0) + v
+            rep.mark("histories")
         if fault_pairs:
             # crash points: a deterministic sample of copy-on-write (state, action) pairs per scenario, each aborted at its executed library lines
             import random
@@ -86,6 +101,14 @@ def _table(job):
     return D.run_table(job)
 
 
+def _history(job):
+    return D.run_history(job)
+
+
+def _hkey(e):
+    return [e["scn"], e.get("hid"), e.get("seq"), e["pre"], e["a"]]
+
+
 def _faults(job):
     return D.run_faults(job)
 
@@ -94,7 +117,8 @@ def _replay(e, detail):
     a = e["a"]
     brief = {k: a[k] for k in ("op", "attr", "inplace") if k in a}
     return ({"family": "specclass", "scn": e["scn"], "a": a, "pre": e["pre"], "recv_post": e["recv_post"], "res": e["res"],
-             "result": e["result"], "same": e["same"], "model_allows": detail, "fault_at": e.get("fault_at"), "fault_loc": e.get("fault_loc")},
+             "result": e["result"], "same": e["same"], "model_allows": detail, "fault_at": e.get("fault_at"), "fault_loc": e.get("fault_loc"),
+             "history": e.get("hid"), "step": e.get("seq")},
             f"scn={e['scn']} {brief} res={e['res']} model={detail}")
 
 
